@@ -34,6 +34,30 @@ theorem boolToInt_injective (a b : Bool) (h : boolToInt a = boolToInt b) : a = b
 theorem intToBool_refuses (n : Int) (h0 : n ≠ 0) (h1 : n ≠ 1) : intToBool? n = none := by
   simp [intToBool?, h0, h1]
 
+/-- an accepted Integer → Boolean conversion is value-preserving: the boolean converts back to exactly that integer … -/
+theorem intToBool_exact (n : Int) (b : Bool) (h : intToBool? n = some b) : boolToInt b = n := by
+  unfold intToBool? at h
+  split at h
+  · rename_i h0; simp only [Option.some.injEq] at h; subst h; simp [boolToInt, h0]
+  · split at h
+    · rename_i _ h1; simp only [Option.some.injEq] at h; subst h; simp [boolToInt, h1]
+    · simp at h
+
+/-- … hence injective where it is defined -/
+theorem intToBool_injective (m n : Int) (b : Bool) (hm : intToBool? m = some b) (hn : intToBool? n = some b) : m = n := by
+  rw [← intToBool_exact m b hm, ← intToBool_exact n b hn]
+
+/-- an accepted Float → Integer conversion is value-preserving as far as the float can tell: the integer converts back to exactly
+that float (the acceptance test *is* the round trip) — what is lost at ±2⁶³ is `floatToInt_not_value_preserving` -/
+theorem floatToInt_round_trip (x n : Int) (h : floatToInt? x = some n) : ofInt n = x := by
+  unfold floatToInt? at h
+  split at h
+  · rename_i hx; simp only [Option.some.injEq] at h; subst h; exact hx
+  · simp at h
+
+theorem floatToInt_injective (x y n : Int) (hx : floatToInt? x = some n) (hy : floatToInt? y = some n) : x = y := by
+  rw [← floatToInt_round_trip x n hx, ← floatToInt_round_trip y n hy]
+
 /-- `i64 as f64` is exact up to 2^53 … -/
 theorem ofInt_exact (n : Int) (h : -(2 ^ 53) < n ∧ n < 2 ^ 53) : ofInt n = n := by
   have hn : n.natAbs < 2 ^ 53 := by omega
